@@ -8,7 +8,7 @@
    the already-attested filter (any subset of the duty in any order), every answer [avail] of the
    accounts provider in every iteration order of the Go map, every attestation data [a], every
    set [unsigned] of validators the signer returns a zero signature for. *)
-From Verif Require Import Lib.Base Model.C01_Attester Proofs.C01 Proofs.C04.
+From Verif Require Import Lib.Base Model.C01_Attester Model.C04_Merge Proofs.C01 Proofs.C04 Proofs.C04_Merge.
 
 (* Every attestation produced is for a validator v that passed the filter, has an account and a
    non-zero signature, and carries: committee index c, bitlist of length size(c) with exactly bit p
@@ -39,17 +39,33 @@ Theorem C04_unsigned_absent :
 Proof. exact unsigned_absent. Qed.
 Print Assumptions C04_unsigned_absent.
 
-(* ... and the attestations are exactly one per remaining account, in the order of the accounts. *)
+(* ... and the attestations are exactly one per remaining account, in the order of the accounts.
+   "Remaining" also excludes an account whose committee, by the duty, has more members than
+   MAX_VALIDATORS_PER_COMMITTEE (2048): createAttestations allocates no aggregation bits for such a
+   duty.  For a duty within that bound (every beacon node answer) the second condition is void:
+   [C04_one_per_signed_account_bounded]. *)
 Theorem C04_one_per_signed_account :
   forall (d : duty) (claimed avail : list vidx) (a : adata) (unsigned : list vidx),
     map (fun x => fst (at_sig x)) (attestations d a (sign_args d claimed avail) unsigned) =
-    filter (fun v => negb (memb N.eqb v unsigned)) (accounts_for avail claimed).
-Proof. intros. rewrite attestations_signers, sign_args_v. reflexivity. Qed.
+    filter (fun v => negb (memb N.eqb v unsigned) && (sa_size (arg_of d v) <=? max_committee))
+           (accounts_for avail claimed).
+Proof. exact sign_args_signers. Qed.
 Print Assumptions C04_one_per_signed_account.
+
+Theorem C04_one_per_signed_account_bounded :
+  forall (d : duty) (claimed avail : list vidx) (a : adata) (unsigned : list vidx),
+    (forall c, size_of d c <= max_committee) ->
+    map (fun x => fst (at_sig x)) (attestations d a (sign_args d claimed avail) unsigned) =
+    filter (fun v => negb (memb N.eqb v unsigned)) (accounts_for avail claimed).
+Proof.
+  intros d claimed avail a unsigned Hb. rewrite sign_args_signers. apply filter_ext.
+  intro v. cbn [arg_of sa_size snd]. rewrite (proj2 (N.leb_le _ _) (Hb _)). apply andb_true_r.
+Qed.
+Print Assumptions C04_one_per_signed_account_bounded.
 
 (* The signing request pairs every account with the committee index of that validator's own row,
    and the k-th attestation is built from the k-th (account, committee index) pair that got a
-   signature. *)
+   signature (and whose committee is not larger than the maximum committee size). *)
 Theorem C04_sign_args_aligned :
   forall (i : nat) (d : duty) (claimed avail : list vidx) (a : adata) (unsigned : list vidx),
     wf_duty d -> incl claimed (d_vals d) ->
@@ -57,7 +73,8 @@ Theorem C04_sign_args_aligned :
        In v claimed /\ In v avail /\
        exists j, nth_error (d_vals d) j = Some v /\ nth_error (d_comms d) j = Some c) /\
     map (fun x => (fst (at_sig x), vt_comm (at_vote x))) (attestations d a (sign_args d claimed avail) unsigned) =
-    filter (fun p => negb (memb N.eqb (fst p) unsigned)) (sr_pairs (mk_signreq i d a (sign_args d claimed avail))).
+    filter (fun p => negb (memb N.eqb (fst p) unsigned) && (size_of d (snd p) <=? max_committee))
+           (sr_pairs (mk_signreq i d a (sign_args d claimed avail))).
 Proof.
   intros i d claimed avail a unsigned Hwf Hincl. split.
   - intros v c. exact (sign_args_aligned i d claimed avail a v c Hwf Hincl).
@@ -93,6 +110,78 @@ Theorem C04_signreq_assignment :
 Proof. exact signreq_assignment. Qed.
 Print Assumptions C04_signreq_assignment.
 
+(* ---------------------------------------------------------------------------------------------
+   The duties Attest is given are built by attester.MergeDuties from the beacon node's answer
+   ([merge_duties], Model/C04_Merge.v).  [api_ok ds]: every position is inside its committee and a
+   committee of a slot has one length (what a beacon node answers); validators, slots and committee
+   indices are arbitrary, in any order -- in particular the same committee index may have different
+   lengths at different slots. *)
+
+(* A merged duty is well-formed, and each of its rows j is a row of the answer for that very slot:
+   same validator, committee index and position, and the size the duty reports for that committee
+   is the length of that committee AT THAT SLOT. *)
+Theorem C04_merged_duty :
+  forall (ds : list api_duty) (d : duty),
+    api_ok ds -> In d (merge_duties ds) ->
+    wf_duty d /\
+    forall j v c p,
+      nth_error (d_vals d) j = Some v -> nth_error (d_comms d) j = Some c -> nth_error (d_poss d) j = Some p ->
+      exists r, In r ds /\ ad_slot r = d_slot d /\ ad_val r = v /\ ad_comm r = c /\ ad_pos r = p /\
+                size_of d c = ad_len r.
+Proof.
+  intros ds d Hok Hin. split; [exact (merged_wf ds d Hok Hin)|].
+  intros j v c p. exact (merged_row ds d j v c p Hok Hin).
+Qed.
+Print Assumptions C04_merged_duty.
+
+(* Nothing is lost: every row of the answer is a row of the merged duty of its slot, and there is
+   one duty per slot. *)
+Theorem C04_merged_complete :
+  forall (ds : list api_duty),
+    NoDup (map d_slot (merge_duties ds)) /\
+    forall r, In r ds ->
+      exists d j, In d (merge_duties ds) /\ d_slot d = ad_slot r /\
+        nth_error (d_vals d) j = Some (ad_val r) /\ nth_error (d_comms d) j = Some (ad_comm r) /\
+        nth_error (d_poss d) j = Some (ad_pos r).
+Proof. intro ds. split; [apply merge_duties_slots_nodup | exact (merged_complete ds)]. Qed.
+Print Assumptions C04_merged_complete.
+
+(* C04_assignment on the merged path: every attestation made from a merged duty carries what ONE
+   row of the beacon node's answer assigns to that validator at that slot -- committee index,
+   position bit, committee length -- with the data and the validator's signature over the same. *)
+Theorem C04_merged_assignment :
+  forall (ds : list api_duty) (d : duty) (claimed avail : list vidx) (a : adata) (unsigned : list vidx) (x : att),
+    api_ok ds -> In d (merge_duties ds) -> incl claimed (d_vals d) ->
+    In x (attestations d a (sign_args d claimed avail) unsigned) ->
+    let v := fst (at_sig x) in
+    In v claimed /\ In v avail /\ ~ In v unsigned /\
+    exists r, In r ds /\ ad_slot r = d_slot d /\ ad_val r = v /\
+      at_len x = ad_len r /\ at_bits x = [ad_pos r] /\
+      at_vote x = {| vt_slot := d_slot d; vt_comm := ad_comm r; vt_root := a_root a; vt_src := a_src a;
+                     vt_src_root := a_src_root a; vt_tgt := a_tgt a; vt_tgt_root := a_tgt_root a |} /\
+      at_sig x = (v, at_vote x).
+Proof. exact merged_assignment. Qed.
+Print Assumptions C04_merged_assignment.
+
+(* ... in every history: whenever call i of Attest was given a duty of [merge_duties ds], every
+   attestation it hands to the submitter is [api_assignment_ok] (the conjunction above) for the
+   answer [ds], the duty's slot and the data call i fetched. *)
+Theorem C04_merged_submitted_assignment :
+  forall (ds : list api_duty) (spe : N) (rs : list run) (sch : list nat) (i : nat) (atts : list att),
+    api_ok ds ->
+    In (Submit i atts) (g_trace (exec spe rs sch init)) ->
+    exists r a, nth_error rs i = Some r /\ s_fetch (r_script r) = Some a /\
+      (In (r_duty r) (merge_duties ds) ->
+       forall x, In x atts -> api_assignment_ok ds (d_slot (r_duty r)) a x).
+Proof.
+  intros ds spe rs sch i atts Hok Hin.
+  destruct (submitted_assignment spe rs sch i atts Hin) as [r [a [Hr [Hf H]]]].
+  exists r, a. split; [exact Hr | split; [exact Hf|]].
+  intros Hd x Hx. apply assignment_ok_api; [exact Hok | exact Hd|].
+  exact (proj2 (proj2 (proj2 (H (merged_wf ds _ Hok Hd) x Hx)))).
+Qed.
+Print Assumptions C04_merged_submitted_assignment.
+
 (* Non-vacuity: the duty of the property text, validators (1,2,3) in committees (0,1,2) at
    positions (1,2,3), validator 1 already attested, everybody has an account, 3 is left unsigned:
    exactly one attestation, for validator 2, with validator 2's committee, size and position. *)
@@ -110,4 +199,24 @@ Proof.
   split; [reflexivity | split; [reflexivity|]].
   intros j c p Hc Hp. do 3 (destruct j as [|j]; [cbn in Hc, Hp; injection Hc as <-; injection Hp as <-; reflexivity|]).
   destruct j; discriminate.
+Qed.
+
+(* Non-vacuity of the merged path: committee 0 has 8 members at slot 100 and 7 at slot 101; the
+   validator at the last position of slot 100's committee gets a bitlist of 8 with bit 7 set. *)
+Definition ex_api : list api_duty :=
+  [ {| ad_slot := 101; ad_val := 2; ad_comm := 0; ad_pos := 3; ad_len := 7; ad_cas := 1 |};
+    {| ad_slot := 100; ad_val := 1; ad_comm := 0; ad_pos := 7; ad_len := 8; ad_cas := 1 |} ].
+
+Example C04_merged_example :
+  api_ok ex_api /\
+  map (fun d => (d_slot d, d_vals d, d_comms d, d_poss d, size_of d 0)) (merge_duties ex_api) =
+    [(100, [1], [0], [7], 8); (101, [2], [0], [3], 7)] /\
+  map (fun d => map (fun x => (fst (at_sig x), at_len x, at_bits x))
+                    (attestations d ex_data (sign_args d (d_vals d) [1; 2]) []))
+      (merge_duties ex_api) = [[(1, 8, [7])]; [(2, 7, [3])]].
+Proof.
+  split; [|split; vm_compute; reflexivity].
+  split.
+  - intros r [<-|[<-|[]]]; reflexivity.
+  - intros r r' [<-|[<-|[]]] [<-|[<-|[]]]; cbn; intros; try reflexivity; discriminate.
 Qed.
